@@ -597,6 +597,7 @@ fn run_all(ctx: &Ctx) -> i32 {
     let reps = representative_kinds();
     let mut trees = single_slot(&kinds, &kinds, &mut stats);
     trees.extend(spines(&[reps.clone(), reps.clone(), reps.clone()], &mut stats));
+    trees.extend(literal_slot(&kinds));
     for t in &trees {
         texts.push(("tree".into(), t.full()));
     }
